@@ -119,6 +119,8 @@ fn singles(ls: &[Line]) -> Vec<Dev> {
             d.push(Dev::TrailingComment(li, " # c"));
             d.push(Dev::TrailingComment(li, "#end loop"));
             d.push(Dev::TrailingComment(li, "# a\\"));
+            // a comment runs to the end of the line: a carriage return inside it is part of it
+            d.push(Dev::TrailingComment(li, "# was:\r7 7"));
             for (ti, t) in l.toks.iter().enumerate() {
                 if is_lit(t) {
                     for r in respellings(t) {
@@ -128,7 +130,7 @@ fn singles(ls: &[Line]) -> Vec<Dev> {
             }
         }
         d.push(Dev::CrlfLine(li));
-        for c in ["", "# c", " \t", "#let i = 5;", "# größer als äöüß ÄÖÜ €€€€ 😀😀😀😀 ٣٣٣٣ ÿÿÿÿÿÿÿÿÿÿÿÿÿÿÿÿ"] {
+        for c in ["", "# c", " \t", "#let i = 5;", "# off:\r9 9", "# größer als äöüß ÄÖÜ €€€€ 😀😀😀😀 ٣٣٣٣ ÿÿÿÿÿÿÿÿÿÿÿÿÿÿÿÿ"] {
             d.push(Dev::Insert(li, c));
         }
     }
